@@ -5,10 +5,10 @@
 import os, sys
 sys.path.insert(0, os.path.join(os.environ.get("AIOFTP_REPO", "/repo"), "src"))
 OBLIGATION = 'rt:c07/mlsx/modify-utc-seconds'
-MODEL = {'mode': 16877, 'size': 2147483648, 'mtime': 1076069263.9999998, 'name': 'a;b=c', 'kind': 'mlsx'}
+MODEL = {'mode': 16877, 'size': 2147483648, 'mtime': 1076091139.9999998, 'name': 'a;b=c', 'kind': 'mlsx'}
 SOLVER_NOTE = 'found by the bounded run-time contract checker on the real code'
 
 import json, subprocess
-inp = {'mode': 16877, 'size': 2147483648, 'mtime': 1076069263.9999998, 'name': 'a;b=c', 'kind': 'mlsx'}
+inp = {'mode': 16877, 'size': 2147483648, 'mtime': 1076091139.9999998, 'name': 'a;b=c', 'kind': 'mlsx'}
 p = subprocess.run(["/venv/bin/python", '/verif/rt/c07_rt.py', "replay", json.dumps(inp)], capture_output=True, text=True, env=dict(os.environ))
 print(p.stdout.strip() or p.stderr.strip())
